@@ -104,6 +104,44 @@ pub fn run_case(t: &mut Toks) -> Vec<i128> {
             build_panics += 1;
         }
     }
+    // a hotspot rule is then replaced by the same rule with the other control strategy (the statistics of the
+    // first must not be taken over), and the same traffic is sent again
+    if let AnyRule::Hot(r) = &rule {
+        if !r.resource.is_empty() {
+            let mut r2 = (**r).clone();
+            r2.id = format!("{}b", r.id);
+            r2.control_strategy = match r.control_strategy {
+                hotspot::ControlStrategy::Reject => hotspot::ControlStrategy::Throttling,
+                _ => hotspot::ControlStrategy::Reject,
+            };
+            if guarded(|| hotspot::load_rules_of_resource(&r.resource, vec![Arc::new(r2)])).is_none() {
+                build_panics += 1;
+            }
+            for k in 0..3 {
+                let name = target.clone();
+                let r = guarded(|| {
+                    let mut b = EntryBuilder::new(name.clone()).with_batch_count(if k == 1 { batch } else { 1 });
+                    match shape {
+                        1 => b = b.with_args(Some(vec!["v1".into()])),
+                        2 => b = b.with_args(Some((0..8).map(|i| format!("v{}", i)).collect())),
+                        3 => {
+                            let mut m = HashMap::new();
+                            m.insert("k1".to_string(), "v1".to_string());
+                            b = b.with_attachments(Some(m)).with_args(Some(vec![]));
+                        }
+                        _ => {}
+                    }
+                    clock::advance_ns(7_000_000);
+                    if let Ok(e) = b.build() {
+                        e.exit();
+                    }
+                });
+                if r.is_none() {
+                    build_panics += 1;
+                }
+            }
+        }
+    }
     // health: every manager still answers queries and accepts updates on an unrelated resource
     let other = format!("healthy{}", tag);
     let mut health = 0;
